@@ -10,7 +10,7 @@ RULE = ("seeded scenarios (objective family x box x r x eps x budget x density x
         "distinct = distinct (family, N, r, trial count, first 3 audited coordinates).")
 ASSUMPTIONS = ["objective values finite and |z| <= 1e100", "eps kept inside the floating-point domain eps^N >= 2^-40",
                "arg-max compared with relative tolerance 1e-9 (ties accepted)"]
-SIZES = {"quick": 480, "thorough": 12000}
+SIZES = {"quick": 480, "thorough": 40000}
 
 
 def cases(tier, seed):
